@@ -5,6 +5,7 @@ import (
 	"go/token"
 	"go/types"
 	"math/big"
+	"os"
 	"strings"
 
 	"golang.org/x/tools/go/ssa"
@@ -172,6 +173,10 @@ func (g *FnGen) instr(ins ssa.Instruction) {
 			g.nilCheck(a, i.Pos())
 		}
 		v := g.val(i.Val)
+		if rec, isVA := g.varargs[a.Ref]; isVA && len(a.Path) == 0 && a.Idx != "" {
+			rec[a.Idx] = v.T
+			break
+		}
 		g.frameCheck(a, i.Pos())
 		if a.Fam == "$struct" {
 			st := a.rootType().Underlying().(*types.Struct)
@@ -600,6 +605,16 @@ func (g *FnGen) alloc(i *ssa.Alloc) {
 		fam, sort := g.elemFam(u.Elem())
 		g.famInit(fam, sort)
 		v.Addr = &Addr{Fam: fam, Ref: ref, T: el}
+		if i.Comment == "varargs" && os.Getenv("GOVC_NOVARARGS") == "" {
+			// the temporary array of a variadic call (append(s, x, y), f(args...)): its elements are remembered as values
+			// and handed to append directly; the heap is not written (keeps the heap versions of append-heavy code small)
+			if g.varargs == nil {
+				g.varargs = map[string]map[string]string{}
+			}
+			g.varargs[ref] = map[string]string{}
+			g.vals[i] = v
+			return
+		}
 		h := g.heapGet(g.cur, fam, sort)
 		g.heapSet(g.cur, fam, fmt.Sprintf("(store %s %s %s)", h, ref, g.zero(el).T))
 	default:
